@@ -541,10 +541,17 @@ def gen_gfa2(rng, canonical=True, nseg=None, nedges=None, ngaps=None, nfrags=Non
             uid = fresh("u")
         d.ugroups.append({"uid": uid, "items": items, "tags": mk_tags()})
     ncustom = ncustom if ncustom is not None else rng.choice([0, 0, 0, 1, 2])
+    prev_rt, prev_n = None, None
     for _ in range(ncustom):
         # (also types spelled with the letters of the predefined record types)
         rt = rng.choice(["X", "Y", "ZZ", "x1", "@", "SE", "GU", "SEG", "UO", "FS", "EG", "LC", "CP", "HS", "ANN", "s", "9", "S1"])
-        f = [rt] + [rng.choice(["abc", "1", "a b", "x:y", "*"]) for _ in range(rng.randint(0, 3))]
+        nf = rng.randint(0, 3)
+        if prev_rt is not None and rng.random() < 0.5:
+            # a second record of the same type with another number of fields
+            rt = prev_rt
+            nf = rng.choice([x for x in range(0, 5) if x != prev_n])
+        prev_rt, prev_n = rt, nf
+        f = [rt] + [rng.choice(["abc", "1", "a b", "x:y", "*"]) for _ in range(nf)]
         f += tags_text(mk_tags())
         d.customs.append("\t".join(f))
     return d
